@@ -14,11 +14,12 @@ type Case struct {
 	Family   string   `json:"family"`
 	Seed     int64    `json:"seed"`
 	Index    int      `json:"index"`
-	Input    any      `json:"input"`    // family-specific replayable description
-	CoqInput Term     `json:"coq_in"`   // term of the family's input type
-	CoqObs   Term     `json:"coq_obs"`  // term of the family's observation type
-	Cells    []string `json:"cells"`    // coverage cells hit
-	Discard  string   `json:"discard"`  // non-empty: case is timing-unstable etc.; not compared
+	Input    any      `json:"input"`           // family-specific replayable description
+	CoqInput Term     `json:"coq_in"`          // term of the family's input type
+	CoqObs   Term     `json:"coq_obs"`         // term of the family's observation type
+	Cells    []string `json:"cells"`           // coverage cells hit
+	Discard  string   `json:"discard"`         // non-empty: case is timing-unstable etc.; not compared
+	Fatal    string   `json:"fatal,omitempty"` // the implementation panicked or blocked; prefix kept
 	Notes    []string `json:"notes,omitempty"`
 }
 
@@ -112,8 +113,17 @@ func main() {
 		if c.Cells == nil {
 			c.Cells = []string{}
 		}
+		if c.Notes == nil {
+			c.Notes = []string{}
+		}
 		if err := enc.Encode(c); err != nil {
 			panic(err)
+		}
+		if c.Fatal != "" {
+			// the process may hold poisoned locks / leaked goroutines: stop here, the driver
+			// starts a fresh process for the remaining cases
+			w.Flush()
+			os.Exit(4)
 		}
 	})
 	if err != nil {
